@@ -15,14 +15,16 @@ theorem execute_durations_are_later_minus_earlier {σo σc : Type} (O : OpenerI 
     (ctx : CallerCtx) (run fb : Option Script) :
     let r := execute O C c ctx run fb
     verdictC12o r.2.1.emits r.2.1.readings = none := by
-  sorry
+  intro r
+  exact cord_verdict_of_prov (cord_execute_prov O C c ctx run fb)
 
 /-- the same when a reconfiguration lands while the call is in flight -/
 theorem executeMid_durations_are_later_minus_earlier {σo σc : Type} (O : OpenerI σo) (C : CloserI σc) (c : Circ σo σc)
     (ctx : CallerCtx) (run fb : Option Script) (mid : Option LiveCfg) :
     let r := executeMid O C c ctx run fb mid
     verdictC12o r.2.1.emits r.2.1.readings = none := by
-  sorry
+  intro r
+  exact cord_verdict_of_prov (cord_executeMid_prov O C c ctx run fb mid)
 
 /-- the monitor does reject a clamped duration: readings 5, 1 (clock set back by the function), reported 0 -/
 example : verdictC12o [.run .success 1 0] [5, 1] ≠ none := by decide
